@@ -31,6 +31,8 @@ def configs(tier):
                 d = max(1, d - 1)
             c.append(("tp=%s,script=%s,style=%s,%s" % (tp, script, style, M), d))
         c.append(("tp=%s,script=%s,ma=b,mb=b,%s" % (tp, "S3" if bs else "T6", M), dq if q else dt))
+        # the peer closes; this end writes into the broken pipe first and only then reads what the peer had sent
+        c.append(("tp=%s,script=%s,style=spec,%s" % (tp, "S5" if bs else "T7", M), min(2, dq) if q else dt))
     return c
 
 
